@@ -758,13 +758,13 @@ theorem nodup_filter_keys {β} (q : Str × β → Bool) (t : List (Str × β))
   List.Nodup.sublist (List.Sublist.map _ List.filter_sublist) h
 
 /-- For a line that the k-th commit itself introduced (the only lines for which blame consults
-    the k-th commit's note), the cumulative slow-path note and the per-commit note the
+    the k-th commit's note), the cumulative state of full replay and the per-commit note the
     shortcut copies name the same session. -/
-theorem slow_fast_agree_on_born (tk : GTree) (k : Nat) (hk : 1 ≤ k)
+theorem state_agrees_on_born (tk : GTree) (k : Nat) (hk : 1 ≤ k)
     (hnd : (tk.map (·.1)).Nodup) (p : Str) (j : Nat) (l : GLine)
     (hl : lineOf tk p j = some l) (hb : l.born = k) :
-    lookupLine (slowLines tk) p j = lookupLine (perCommitLines k tk) p j := by
-  unfold slowLines cumulativeLines perCommitLines
+    lookupLine (cumulativeLines tk) p j = lookupLine (perCommitLines k tk) p j := by
+  unfold cumulativeLines perCommitLines
   rw [lookupLine_treeTriples _ tk hnd, lookupLine_treeTriples _ tk hnd, hl]
   have h1 : decide (1 ≤ l.born) = true := by simp [hb, hk]
   have h2 : decide (l.born = k) = true := by simp [hb]
